@@ -530,6 +530,7 @@ func logAccounts(config *sharedConfig.PoliciesConfig) {
 func BuildPolicyData(config *sharedConfig.PoliciesConfig, diagnosisFreeReverted bool) (
 	*PoliciesData, error,
 ) {
+	ensurePluginTypes(config)
 	policyTree, err := BuildEndpointPolicyTree(config.Endpoints)
 	if err != nil {
 		return nil, errors.Join(errors.New("failed to build policy tree"), err)
@@ -540,6 +541,26 @@ func BuildPolicyData(config *sharedConfig.PoliciesConfig, diagnosisFreeReverted 
 		EndpointPolicyTree:    *policyTree,
 		diagnosisFreeReverted: diagnosisFreeReverted,
 	}, nil
+}
+
+// ensurePluginTypes infers the (lazily cached) type tag of every remedy and diagnosis while the
+// configuration is still private to the loader: afterwards Type() only reads, so concurrent
+// transactions do not race on writing the tag into the shared configuration.
+func ensurePluginTypes(config *sharedConfig.PoliciesConfig) {
+	for i := range config.Global.Remedies {
+		config.Global.Remedies[i].Type()
+	}
+	for i := range config.Global.Diagnosis {
+		config.Global.Diagnosis[i].Type()
+	}
+	for e := range config.Endpoints {
+		for i := range config.Endpoints[e].Remedies {
+			config.Endpoints[e].Remedies[i].Type()
+		}
+		for i := range config.Endpoints[e].Diagnosis {
+			config.Endpoints[e].Diagnosis[i].Type()
+		}
+	}
 }
 
 func notifyEnabledPlugins(config *sharedConfig.PoliciesConfig) {
